@@ -25,8 +25,9 @@ CLAIMED = {
              "All data are re-extracted from the source "
              "on every run and validated against the real decompose()/__call__; a numpy-oracle sweep over every "
              "transpiler class/preset/pipeline stage/configuration searches for failing inputs and covers the "
-             "passes whose bodies are numeric (KAK, eig).",
-        design_ref="DESIGN.md section 4 (C01), 9.2",
+             "passes whose bodies are numeric (KAK, eig). Three defects found by this check were repaired (fix: 8e85f3f KAK "
+             "self-validation, 9b14097 IonQ unconvertible gates, 835fc47 ZYZ decomposition of nearly diagonal matrices).",
+        design_ref="DESIGN.md section 4 (C01), 9.2, 9.3",
         note="Trusted: Coq kernel+vm_compute; Reals axioms + functional_extensionality_dep; translate/templates.py, "
              "translate/native.py; documented matrices of gates.py and of the native gate docstrings as spec (IonQ phases "
              "in turns, MS phi0 on its first target); numpy oracle. Partial: KAK/SU2 numeric bodies (self-validating "
@@ -62,7 +63,7 @@ CLAIMED = {
              "folding model is tied to scaling_circuit_folding by vm_compute correspondence; a numpy sweep covers "
              "PauliRotation, UnitaryMatrix, the residual-count arithmetic and noiseless ZNE with every extrapolation method "
              "(two defects found there were repaired: the sign of the exponential term in the log fit, fix: bd235b5, and the "
-             "underdetermined polynomial fit with fewer scale factors than coefficients, fix: 481918f).",
+             "underdetermined polynomial fit with fewer (distinct) scale factors than coefficients, fix: 481918f, 2b16e10).",
         design_ref="DESIGN.md section 4 (C12)",
         note="Trusted: Coq kernel+vm_compute; Reals axioms + funext; translate/inverse.py; documented matrices. "
              "PauliRotation and UnitaryMatrix gates have pauli_rotation_inverse_undoes / unitary_matrix_inverse_undoes over the "
